@@ -86,6 +86,7 @@ package sse
 //@   ensures view_full: old(q.count) == len(q.buf) ==> q.count == len(q.buf)
 //@   ensures view_evicts_oldest: old(q.count) == len(q.buf) ==> forall(k, 0, q.count-1, at(q, k) == old(at(q, k+1)))
 //@   ensures slots_outside_untouched: forall(i, 0, len(q.buf), i != old(q.tail) ==> q.buf[i] == old(q.buf[i]))
+//@   ensures dead_slots_stay_zero: old(deadzero(q)) && old(q.count) < len(q.buf) ==> deadzero(q)
 
 //@ func queue.dequeue
 //@   requires q != nil && wf(q) && q.count > 0
@@ -95,6 +96,7 @@ package sse
 //@   ensures view_drops_first: forall(k, 0, q.count, at(q, k) == old(at(q, k+1)))
 //@   ensures vacated_slot_zeroed: q.buf[old(q.head)] == zeroelem(q.buf)
 //@   ensures slots_outside_untouched: forall(i, 0, len(q.buf), i != old(q.head) ==> q.buf[i] == old(q.buf[i]))
+//@   ensures dead_slots_stay_zero: old(deadzero(q)) ==> deadzero(q)
 
 //@ func queue.resize
 //@   requires q != nil && wf(q) && newSize > q.count
@@ -242,9 +244,11 @@ package sse
 //@   requires f != nil && fok(f) && idwf(subscription.LastEventID)
 //@   ensures replays_nothing: forall(k, 0, f.buf.count-1, at(&f.buf, k).ID() != subscription.LastEventID) && !(f.currentID != nil && evictedauto(&f.buf, subscription.LastEventID)) ==> ncalls() == old(ncalls()) && result == nil
 //@   ensures only_this_client: forall(c, old(ncalls()), ncalls(), crecv(c) == subscription.Client && (iscall(c, "Send") || iscall(c, "Flush")))
-//@   ensures sends_later_matching_events: forall(p, 0, f.buf.count-1, firstmatch(&f.buf, subscription.LastEventID, p) ==>
+//@   ensures sends_later_events: forall(p, 0, f.buf.count-1, firstmatch(&f.buf, subscription.LastEventID, p) ==>
 //@       forall(c, old(ncalls()), ncalls(), iscall(c, "Send") ==> 0 <= citer(c) && p+1+citer(c) < f.buf.count &&
-//@           carg(c, "Send", 0) == at(&f.buf, p+1+citer(c)).message && intersects(subscription.Topics, at(&f.buf, p+1+citer(c)).topics)))
+//@           carg(c, "Send", 0) == at(&f.buf, p+1+citer(c)).message))
+//@   ensures sends_matching_events: forall(p, 0, f.buf.count-1, firstmatch(&f.buf, subscription.LastEventID, p) ==>
+//@       forall(c, old(ncalls()), ncalls(), iscall(c, "Send") ==> intersects(subscription.Topics, at(&f.buf, p+1+citer(c)).topics)))
 //@   ensures sends_in_put_order: forall(c, old(ncalls()), ncalls()-1, iscall(c, "Send") && iscall(c+1, "Send") ==> citer(c) < citer(c+1))
 //@   ensures sends_every_later_matching_event: result == nil ==> forall(p, 0, f.buf.count-1, firstmatch(&f.buf, subscription.LastEventID, p) ==>
 //@       forall(j, p+1, f.buf.count, intersects(subscription.Topics, at(&f.buf, j).topics) ==>
@@ -259,3 +263,99 @@ package sse
 //@   site each0 ordered: forall(c, old(ncalls()), ncalls()-1, citer(c) < citer(c+1))
 //@   site each0 covered: forall(j, 0, iterk, intersects(subscription.Topics, f.buf.buf[ringidx(i, len(f.buf.buf), j)].topics) ==>
 //@       old(ncalls()) <= callat(j) && callat(j) < ncalls() && citer(callat(j)) == j)
+
+// ---------------------------------------------------------------------------------------------------------
+// replay.go: ValidReplayer (C09, C18)
+// ---------------------------------------------------------------------------------------------------------
+
+//@ pure sortedexp(q) = forall(i, 0, q.count, forall(j, i, q.count, at(q, i).exp <= at(q, j).exp))
+//@ pure vok(v) = wf(&v.messages) && deadzero(&v.messages) && v.ttl > 0 && sortedexp(&v.messages) &&
+//@     forall(k, 0, v.messages.count, msgok(at(&v.messages, k).messageWithTopics)) &&
+//@     (v.currentID != nil ==> allocated(v.currentID) && autoinv(&v.messages, *v.currentID))
+
+// The clock. Now is an abstract callee; the property assumes a non-decreasing clock, which is stated against the
+// stored state: every stored expiry is an earlier reading plus the constant ttl, so it is at most now+ttl.
+//@ func @Now
+//@   ensures never_zero: result != 0
+//@   ensures non_decreasing_clock: v.messages.count > 0 ==> result + v.ttl >= at(&v.messages, v.messages.count-1).exp
+
+//@ func NewValidReplayer
+//@   ensures non_positive_ttl_rejected: ttl <= 0 ==> result == nil && result1 != nil
+//@   ensures created: ttl > 0 ==> result1 == nil && result != nil && vok(result) && result.messages.count == 0 && result.ttl == ttl
+//@   ensures auto_ids_start_at_zero: ttl > 0 && autoIDs ==> result.currentID != nil && *result.currentID == 0
+//@   ensures manual_mode: ttl > 0 && !autoIDs ==> result.currentID == nil
+
+//@ func ValidReplayer.shouldGC
+//@   requires v != nil
+//@   purefn
+//@   ensures definition: result == (v.GCInterval > 0 && now - v.lastGC >= v.GCInterval)
+
+//@ func ValidReplayer.doGC
+//@   requires v != nil && vok(v)
+//@   modifies v.messages.buf, v.messages.head, v.messages.tail, v.messages.count
+//@   ensures invariant_kept: vok(v)
+//@   ensures view_is_suffix: v.messages.count <= old(v.messages.count) && let(d, old(v.messages.count) - v.messages.count, forall(k, 0, v.messages.count, at(&v.messages, k) == old(at(&v.messages, k + d))))
+//@   ensures only_expired_dropped: forall(k, 0, old(v.messages.count) - v.messages.count, old(at(&v.messages, k)).exp <= now)
+//@   ensures no_expired_kept: forall(k, 0, v.messages.count, at(&v.messages, k).exp > now)
+//@   invariant 0 shape: wf(&v.messages) && deadzero(&v.messages) && len(v.messages.buf) == old(len(v.messages.buf)) && v.messages.count <= old(v.messages.count)
+//@   invariant 0 still_sorted: sortedexp(&v.messages)
+//@   invariant 0 suffix: let(d, old(v.messages.count) - v.messages.count, forall(k, 0, v.messages.count, at(&v.messages, k) == old(at(&v.messages, k + d))))
+//@   invariant 0 dropped_expired: forall(k, 0, old(v.messages.count) - v.messages.count, old(at(&v.messages, k)).exp <= now)
+
+//@ func ValidReplayer.GC
+//@   requires v != nil && vok(v)
+//@   modifies v.messages.buf, v.messages.head, v.messages.tail, v.messages.count
+//@   ensures invariant_kept: vok(v)
+//@   ensures reads_clock_once: ncalls() == old(ncalls()) + 1 && iscall(old(ncalls()), "Now")
+//@   ensures view_is_suffix: v.messages.count <= old(v.messages.count) && let(d, old(v.messages.count) - v.messages.count, forall(k, 0, v.messages.count, at(&v.messages, k) == old(at(&v.messages, k + d))))
+//@   ensures only_expired_dropped: forall(k, 0, old(v.messages.count) - v.messages.count, old(at(&v.messages, k)).exp <= cret(old(ncalls()), "Now", 0))
+//@   ensures no_expired_kept: forall(k, 0, v.messages.count, at(&v.messages, k).exp > cret(old(ncalls()), "Now", 0))
+
+//@ func ValidReplayer.Put
+//@   requires v != nil && vok(v) && message != nil
+//@   assume no_counter_wrap: v.currentID != nil ==> *v.currentID < 18446744073709551615
+//@   modifies v.messages.buf, v.messages.head, v.messages.tail, v.messages.count, v.lastGC, *v.currentID
+//@   ensures invariant_kept: vok(v)
+//@   ensures no_topics_rejected: len(topics) == 0 ==> result == nil && result1 == ErrNoTopic && ncalls() == old(ncalls()) && v.messages.count == old(v.messages.count) && forall(k, 0, v.messages.count, at(&v.messages, k) == old(at(&v.messages, k)))
+//@   ensures manual_needs_id: v.currentID == nil && !message.ID.set ==> result1 != nil
+//@   ensures auto_rejects_id: v.currentID != nil && message.ID.set ==> result1 != nil
+//@   ensures accepted_otherwise: len(topics) > 0 && iff(v.currentID == nil, message.ID.set) ==> result1 == nil
+//@   ensures reads_clock_once: len(topics) > 0 ==> ncalls() == old(ncalls()) + 1 && iscall(old(ncalls()), "Now")
+//@   ensures rejected_keeps_a_suffix: result1 != nil ==> result == nil && v.messages.count <= old(v.messages.count) && let(d, old(v.messages.count) - v.messages.count, forall(k, 0, v.messages.count, at(&v.messages, k) == old(at(&v.messages, k + d))))
+//@   ensures rejected_drops_only_expired: result1 != nil && len(topics) > 0 ==> forall(k, 0, old(v.messages.count) - v.messages.count, old(at(&v.messages, k)).exp <= cret(old(ncalls()), "Now", 0))
+//@   ensures rejected_keeps_counter: result1 != nil && v.currentID != nil ==> *v.currentID == old(*v.currentID)
+//@   ensures accepted_appends_to_a_suffix: result1 == nil ==> v.messages.count >= 1 && v.messages.count - 1 <= old(v.messages.count) && let(d, old(v.messages.count) - (v.messages.count - 1), forall(k, 0, v.messages.count - 1, at(&v.messages, k) == old(at(&v.messages, k + d))))
+//@   ensures accepted_drops_only_expired: result1 == nil ==> forall(k, 0, old(v.messages.count) - (v.messages.count - 1), old(at(&v.messages, k)).exp <= cret(old(ncalls()), "Now", 0))
+//@   ensures stored_last: result1 == nil ==> result != nil && at(&v.messages, v.messages.count-1).message == result && at(&v.messages, v.messages.count-1).topics == topics
+//@   ensures expires_at_put_time_plus_ttl: result1 == nil ==> at(&v.messages, v.messages.count-1).exp == cret(old(ncalls()), "Now", 0) + v.ttl
+//@   ensures manual_stores_given_message: result1 == nil && v.currentID == nil ==> result == message
+//@   ensures auto_consecutive_ids: result1 == nil && v.currentID != nil ==> result.ID.value == fmtU(old(*v.currentID)) && *v.currentID == old(*v.currentID) + 1 && fresh(result)
+//@   ensures message_untouched: *message == old(*message)
+
+//@ func ValidReplayer.Replay
+//@   requires v != nil && vok(v) && idwf(subscription.LastEventID)
+//@   ensures replays_nothing: forall(k, 0, v.messages.count-1, at(&v.messages, k).ID() != subscription.LastEventID) && !(v.currentID != nil && evictedauto(&v.messages, subscription.LastEventID)) ==> ncalls() == old(ncalls()) && result == nil
+//@   ensures reads_clock_first: ncalls() > old(ncalls()) ==> iscall(old(ncalls()), "Now")
+//@   ensures only_this_client: forall(c, old(ncalls())+1, ncalls(), crecv(c) == subscription.Client && (iscall(c, "Send") || iscall(c, "Flush")))
+//@   ensures sends_later_events: forall(p, 0, v.messages.count-1, firstmatch(&v.messages, subscription.LastEventID, p) ==>
+//@       forall(c, old(ncalls())+1, ncalls(), iscall(c, "Send") ==> 0 <= citer(c) && p+1+citer(c) < v.messages.count &&
+//@           carg(c, "Send", 0) == at(&v.messages, p+1+citer(c)).message))
+//@   ensures sends_matching_events: forall(p, 0, v.messages.count-1, firstmatch(&v.messages, subscription.LastEventID, p) ==>
+//@       forall(c, old(ncalls())+1, ncalls(), iscall(c, "Send") ==> intersects(subscription.Topics, at(&v.messages, p+1+citer(c)).topics)))
+//@   ensures sends_unexpired_events: forall(p, 0, v.messages.count-1, firstmatch(&v.messages, subscription.LastEventID, p) ==>
+//@       forall(c, old(ncalls())+1, ncalls(), iscall(c, "Send") ==> at(&v.messages, p+1+citer(c)).exp > cret(old(ncalls()), "Now", 0)))
+//@   ensures sends_in_put_order: forall(c, old(ncalls())+1, ncalls()-1, iscall(c, "Send") && iscall(c+1, "Send") ==> citer(c) < citer(c+1))
+//@   ensures sends_every_later_unexpired_matching_event: result == nil ==> forall(p, 0, v.messages.count-1, firstmatch(&v.messages, subscription.LastEventID, p) ==>
+//@       forall(j, p+1, v.messages.count, intersects(subscription.Topics, at(&v.messages, j).topics) && at(&v.messages, j).exp > cret(old(ncalls()), "Now", 0) ==>
+//@           old(ncalls()) < callat(j-p-1) && callat(j-p-1) < ncalls() && iscall(callat(j-p-1), "Send") && citer(callat(j-p-1)) == j-p-1))
+//@   ensures failed_send_ends_replay: forall(c, old(ncalls())+1, ncalls(), iscall(c, "Send") && cret(c, "Send", 0) != nil ==> c == ncalls()-1 && result == cret(c, "Send", 0))
+//@   ensures flushes_once_at_end: ncalls() > old(ncalls()) && (iscall(ncalls()-1, "Flush") || cret(ncalls()-1, "Send", 0) == nil) ==>
+//@       iscall(ncalls()-1, "Flush") && result == cret(ncalls()-1, "Flush", 0) && forall(c, old(ncalls())+1, ncalls()-1, iscall(c, "Send"))
+//@   site each0 no_error_yet: err == nil && ncalls() > old(ncalls()) && iscall(old(ncalls()), "Now") && now == cret(old(ncalls()), "Now", 0)
+//@   site each0 trace: forall(c, old(ncalls())+1, ncalls(), crecv(c) == subscription.Client && iscall(c, "Send") && cret(c, "Send", 0) == nil &&
+//@       0 <= citer(c) && citer(c) < iterk && carg(c, "Send", 0) == v.messages.buf[ringidx(i, len(v.messages.buf), citer(c))].message &&
+//@       intersects(subscription.Topics, v.messages.buf[ringidx(i, len(v.messages.buf), citer(c))].topics) &&
+//@       v.messages.buf[ringidx(i, len(v.messages.buf), citer(c))].exp > now)
+//@   site each0 ordered: forall(c, old(ncalls())+1, ncalls()-1, citer(c) < citer(c+1))
+//@   site each0 covered: forall(j, 0, iterk, intersects(subscription.Topics, v.messages.buf[ringidx(i, len(v.messages.buf), j)].topics) && v.messages.buf[ringidx(i, len(v.messages.buf), j)].exp > now ==>
+//@       old(ncalls()) < callat(j) && callat(j) < ncalls() && citer(callat(j)) == j)
